@@ -8,6 +8,7 @@ from ..translate import labelfns as tr
 from ..translate import arith2
 from . import c09_keyopts
 from ..translate import hashmapsrc as hmsrc
+from ..translate import hashmapglue as hmglue
 
 SPEC = dict(
     manifest=dict(
@@ -24,18 +25,25 @@ SPEC = dict(
              '(c09_src_model_set).'
              ' SOURCE TIE (parser half of the round trip): parse.py is regenerated as Lean functions on every run (Generated/HashmapSrc.lean) and Lean proves for all inputs that the '
              'regenerated parse_hashmap / parse / deserialize_hashmap_node / deserialize_hml / deserialize_unary equal the hand model (c09_src_parse_is_model), so the round trip holds through the parser as written '
-             '(c09_src_roundtrip). The serialiser half (utils.py build_tree .. serialize_dict) is regenerated and validated against the library and compared with the model by Lean evaluation on samples; its equality is not proved.',
+             '(c09_src_roundtrip). SERIALISER half: utils.py (pad, find_common_prefix, remove_prefix_map, fork_map, build_node/build_edge/build_tree, write_label*, write_node/write_edge, serialize_dict) is regenerated the same way and proved equal to the hand model '
+             'for every map set_int_key can build, every value serialiser that appends bits/refs and every fuel >= 2n+2 (c09_src_serialize_is_model; Proofs/SrcHashmapSer.lean), so the regenerated serialiser followed by the regenerated parser '
+             'returns exactly the map, last write wins, keys ascending - for every finite map of every key width n >= 1 (c09_src_roundtrip_full). The METHODS AROUND THEM are regenerated too (Generated/HashmapGlue.lean; hashmapglue.py = a specialiser to the declared calling form + pyrec.py; validated against the library on 547 calls per change): '
+             'HashMap.set_int_key is the hand model setIntKey (c09_src_set_int_key); HashMap.set, specialised per key form - int, bytes (big-endian unsigned), 0/1 string (int(key, 2), ValueError on the empty string), Address (store_address .. load_uint(267)), '
+             'text with hash_key (sha256), key_serializer - is normKey followed by setIntKey (c09_src_set_forms, c09_src_set_key_serializer); HashMap.serialize is the model serialize (None for the empty map, c09_src_serialize); HashMap.parse / from_cell(..).map / '
+             'Slice.load_dict / preload_dict / load_hashmap with the default deserialisers are hashMapParse / fromCell / loadDict, load_dict consuming the presence bit and one reference, preload_dict nothing (c09_src_parse_api); so the whole API round trip holds with '
+             'every method the regenerated one (c09_src_roundtrip_api). Still hand model + correspondence: non-default key / value deserialisers, with_*_values, Builder.store_dict, and the Builder / Slice primitives under store_address / load_uint (C05 / C06).',
         level_note='Trusted: Lean kernel (propext, Classical.choice, Quot.sound); Model/Hashmap.lean as a hand transcription of '
                    'hashmap/{hashmap,utils,parse}.py (tied by sampled differential correspondence: exhaustive widths 1-3 incl. all insertion '
                    'orders in the thorough tier, all 65535 width-4 key sets thorough / sampled quick, pattern key sets up to width 1023, all key '
                    'forms, invalid keys); value serialisers are modelled as functions returning appended bits/refs; dict re-keying in fork_map is '
                    'modelled without re-deduplication (exact for distinct equal-length keys, which set_int_key guarantees; HashMap(map_=...) '
                    'injection is outside the model); Cell construction limits (depth) are C01.',
-        technique='Lean 4 proof (hand model for set/serialise; label functions, key-range test, and the whole parser - label reader, parse recursion - regenerated from source and proved equal to the model) + differential correspondence with the library + round-trip oracle',
+        technique='Lean 4 proof (label functions, key-range test, the whole parser - label reader, parse recursion - the whole serialiser - tree building, label and edge writer - and the HashMap / Slice methods around them (set key forms, serialize, parse, from_cell, load_dict, preload_dict, load_hashmap) regenerated from source and proved equal to the model) + differential correspondence with the library + round-trip oracle',
     ),
     translators=[('hashmap/utils.py->Generated/LabelFns.lean', tr.regenerate),
                  ('hashmap.py set_int_key range test->Generated/DictKey.lean', arith2.regenerator('DictKey')),
-                 ('hashmap/parse.py+utils.py->Generated/HashmapSrc.lean', hmsrc.regenerate)],
+                 ('hashmap/parse.py+utils.py->Generated/HashmapSrc.lean', hmsrc.regenerate),
+                 ('hashmap.py+slice.py dict methods->Generated/HashmapGlue.lean', hmglue.regenerate)],
     design_ref='DESIGN.md §6 C09',
     rule='a case = (key width, value serialiser, insertion sequence of (key form, value)); widths 1-2 all key sets x all orders, width 3 all key '
          'sets x 4 orders (all orders thorough), width 4 sampled key sets (all 65535 thorough), widths 5..1023 prefix-sharing patterns; key forms '
@@ -44,7 +52,8 @@ SPEC = dict(
          'non-trivial = at least one accepted key',
     trusted_base=['Model/Hashmap.lean mirrors hashmap.py / utils.py / parse.py by hand; Generated/LabelFns.lean is translated from utils.py each run',
                   'harness/translate/labelfns.py (Python subset -> Lean)', 'value serialisers modelled as "append these bits/refs"',
-                  'harness/translate/pyarith.py + arith.py/arith2.py and lean/TonVerif/PyInt.lean (int.bit_length) for the c09_src_* theorems'],
+                  'harness/translate/pyarith.py + arith.py/arith2.py and lean/TonVerif/PyInt.lean (int.bit_length) for the c09_src_* theorems',
+                  'harness/translate/pyrec.py + hashmapsrc.py (declared interface of utils.py / parse.py) + hashmapglue.py (the specialiser and the declared calling forms of the HashMap / Slice methods) + lean/TonVerif/PyHm.lean, PyGlue.lean (reading of Slice / Builder / dict / int(s, 2) / the Address key chain); a value serialiser is read as a callback that appends bits and references (serCb)'],
     assumptions=['Python dict preserves insertion order', 'sorted() on 0/1 strings is lexicographic', 'correspondence is sampled differential testing'],
 )
 
@@ -373,6 +382,14 @@ def src_search(ctx):
     for n, items in hm['ser'][:20]:
         if 1 <= n <= 1023:
             run_case(ctx, n, 'u3', [(f'i:{k}', str((i * 3 + 1) % 8)) for i, (k, _) in enumerate(items)], (), 'src-ser')
+    # regenerated HashMap.set key normalisation (Generated/HashmapGlue.lean) vs hand model: the differing keys as one-key dictionaries
+    for size, form, key in hmglue.diff_points(ctx)[:24]:
+        if not 1 <= size <= 1023:
+            continue
+        tok = {'int': lambda: f'i:{key}', 'bytes': lambda: f'y:{key or "-"}', 'str': lambda: f's:{key or "-"}',
+               'hashed': lambda: f'h:{key.encode().hex() or "-"}', 'addr': lambda: f'a:{key[0]}:{key[1]}'}[form]()
+        run_case(ctx, size, 'u3', [(tok, '1')], (), 'src-glue')
+        run_case(ctx, size, 'u3', [('i:0', '2'), (tok, '1')], (), 'src-glue2')
     return len(ctx.failures) > n0
 
 
